@@ -11,7 +11,7 @@
 //!   design: an *empty* transition condition (`cond=""`; `conditionMatch` treats every empty value as
 //!   "no condition") becomes `Null`, and `Invoke.parent_state_name` is kept only when `invoke_id`
 //!   is empty (the only case in which it is written, read and used).
-use rufsm::datamodel::{Data, ToAny};
+use rufsm::datamodel::Data;
 use rufsm::executable_content::{
     Assign, Cancel, ExecutableContent, Expression, ForEach, If, Log, Raise, Script, SendParameters,
 };
